@@ -4,6 +4,10 @@
 #include "ref_codes.h"
 #include "src/xds_demux.c"
 
+/* only referenced by the (unused) packet dump helper; tables.c is not linked */
+const char *vbi_rating_string(vbi_rating_auth auth, int id) { (void) auth; (void) id; return ""; }
+const char *vbi_prog_type_string(vbi_prog_classf classf, int id) { (void) classf; (void) id; return ""; }
+
 #ifndef CLS1
 #define CLS1 0
 #endif
